@@ -1,0 +1,109 @@
+//go:build verif
+
+package termemu
+
+// Verification hooks for the run lists of the span buffer. Compiled only with
+// `-tags verif`; add-only: nothing in the regular build refers to this file.
+
+import "fmt"
+
+// VerifLineResult is the outcome of one row-level operation of the span buffer.
+type VerifLineResult struct {
+	Row                       VerifRow // runs, cached width and expanded cells afterwards
+	Shift, StartFill, EndFill int      // spliceInfo of the replaceRange involved (if any)
+	A, B                      int      // columns announced through RegionChanged (-1: none)
+	Calls                     int      // number of RegionChanged calls
+	Idx, Off                  int      // findSpanAtX
+	Text                      string   // Line(y)
+	Panic                     string
+}
+
+type verifRegionRecorder struct {
+	EmptyFrontend
+	a, b, calls int
+}
+
+func (r *verifRegionRecorder) RegionChanged(reg Region, c ChangeReason) {
+	r.a, r.b = reg.X, reg.X2
+	r.calls++
+}
+
+func verifSpanOf(r VerifRun) Span {
+	return Span{Style: VerifStyleFromRaw(r.Style), Text: r.Text, Rune: r.Rune, Width: r.Width}
+}
+
+// VerifLineOp applies one row-level function of screen.go to a row given as
+// runs with its cached width, in rune text mode. op is one of
+//
+//	rr      replaceRangeWide(line, x, n, ins, keep)
+//	trunc   truncateLine(line, x, cur)
+//	resize  resizeLine(line, x, cur)
+//	find    findSpanAtX(line, x)
+//	write   writeSpanAt(x, 0, ins, CRText if keep else CRClear) on a w x 1 screen
+//	dch     deleteChars(x, 0, n, CRClear) on a w x 1 screen
+//	erase   eraseRegion(Region{X: x, X2: n, Y: 0, Y2: 1}, CRClear) on a w x 1 screen
+//	text    Line(0) on a w x 1 screen
+//	styled  StyledLine(x, n, 0) on a w x 1 screen (the result's runs are returned as the row)
+//
+// cur is the screen's current style.
+func VerifLineOp(op string, w int, cur [3]uint32, runs []VerifRun, cached int, x, n int, ins VerifRun, keep bool) (res VerifLineResult) {
+	defer func() {
+		if r := recover(); r != nil {
+			res.Panic = fmt.Sprint(r)
+			if res.Panic == "" {
+				res.Panic = "panic"
+			}
+		}
+	}()
+	mode := TextReadModeRune
+	line := spanLine{width: cached}
+	for _, r := range runs {
+		line.spans = append(line.spans, verifSpanOf(r))
+	}
+	res.A, res.B = -1, -1
+	style := VerifStyleFromRaw(cur)
+	switch op {
+	case "rr":
+		info := replaceRangeWide(&line, x, n, verifSpanOf(ins), mode, keep)
+		res.Shift, res.StartFill, res.EndFill = info.shift, info.startFill, info.endFill
+	case "trunc":
+		truncateLine(&line, x, style, mode)
+	case "resize":
+		resizeLine(&line, x, style, mode)
+	case "find":
+		res.Idx, res.Off = findSpanAtX(&line, x)
+	case "write", "dch", "erase", "text", "styled":
+		rec := &verifRegionRecorder{a: -1, b: -1}
+		s := newSpanScreen(rec)
+		rec.a, rec.b, rec.calls = -1, -1, 0
+		s.size = Pos{X: w, Y: 1}
+		s.lines = []spanLine{line}
+		s.bottomMargin = 0
+		s.style = style
+		s.textMode = mode
+		switch op {
+		case "write":
+			cr := CRClear
+			if keep {
+				cr = CRText
+			}
+			res.Shift = s.writeSpanAt(x, 0, verifSpanOf(ins), cr)
+		case "dch":
+			s.deleteChars(x, 0, n, CRClear)
+		case "erase":
+			s.eraseRegion(Region{X: x, X2: n, Y: 0, Y2: 1}, CRClear)
+		case "text":
+			res.Text = s.Line(0)
+		}
+		line = s.lines[0]
+		if op == "styled" {
+			l := s.StyledLine(x, n, 0)
+			line = spanLine{spans: l.Spans, width: l.Width}
+		}
+		res.A, res.B, res.Calls = rec.a, rec.b, rec.calls
+	default:
+		res.Panic = "unknown op " + op
+	}
+	res.Row = verifSnapSpanRow(&line, mode)
+	return res
+}
